@@ -9,6 +9,7 @@ import (
 	"path/filepath"
 	"strings"
 	"testing"
+	"time"
 
 	old_faithful_grpc "github.com/rpcpool/yellowstone-faithful/old-faithful-proto/old-faithful-grpc"
 	"github.com/rpcpool/yellowstone-faithful/zzverif/cargen"
@@ -380,7 +381,9 @@ func TestVerif_C09_Handlers(t *testing.T) {
 		}
 		sc := sc
 		runf := func(c *explore.Ctx) explore.Result { return run(sc, c) }
+		t0 := time.Now()
 		st := explore.Search(explore.Config{Bound: bound, Deadline: R.Deadline(), Prune: true}, runf)
+		t.Logf("scenario %d %+v: %d executions (%d pruned) in %v", idx, sc, st.Executions, st.Pruned, time.Since(t0))
 		R.Evaluations += st.Executions
 		R.NonTrivial += st.NonTrivial
 		R.Transitions += st.Points
